@@ -107,6 +107,8 @@ pub struct Net {
 	pub closed: Vec<(usize, String)>,
 	pub events: Vec<Vec<Event>>,
 	pub persisters: Vec<&'static test_utils::TestPersister>,
+	/// every `BroadcastChannelUpdate` a node emitted: (node, short_channel_id, disabled flag of the update, timestamp) (C12)
+	pub bcast_updates: Vec<(usize, u64, bool, u32)>,
 }
 
 pub fn leak<T>(x: T) -> &'static T { Box::leak(Box::new(x)) }
@@ -122,7 +124,7 @@ impl Net {
 		let mut connected = BTreeSet::new();
 		for i in 0..n { for j in 0..n { if i != j { connected.insert((i, j)); } } }
 		Net { nodes, ids, q: BTreeMap::new(), connected, chans: vec![], trace: vec![], seen_updates: BTreeMap::new(), max_update_id: BTreeMap::new(), awaiting: BTreeMap::new(),
-			seen_bcast: vec![0; n], in_progress: vec![false; n], pays: vec![], claimable: vec![vec![]; n], closed: vec![], events: (0..n).map(|_| vec![]).collect(), persisters }
+			seen_bcast: vec![0; n], in_progress: vec![false; n], pays: vec![], claimable: vec![vec![]; n], closed: vec![], events: (0..n).map(|_| vec![]).collect(), persisters, bcast_updates: vec![] }
 	}
 
 	pub fn idx(&self, pk: &PublicKey) -> usize { self.ids.iter().position(|x| x == pk).unwrap() }
@@ -207,7 +209,8 @@ impl Net {
 						_ => continue,
 					}
 				},
-				MessageSendEvent::BroadcastChannelAnnouncement { .. } | MessageSendEvent::BroadcastChannelUpdate { .. }
+				MessageSendEvent::BroadcastChannelUpdate { msg, .. } => { self.bcast_updates.push((i, msg.contents.short_channel_id, msg.contents.channel_flags & 2 != 0, msg.contents.timestamp)); continue; },
+				MessageSendEvent::BroadcastChannelAnnouncement { .. }
 				| MessageSendEvent::BroadcastNodeAnnouncement { .. } | MessageSendEvent::SendGossipTimestampFilter { .. } => continue,
 				other => { self.trace.push(Obs::Event { node: i, text: format!("unhandled-msg-event {}", format!("{:?}", other).chars().take(60).collect::<String>()) }); continue; },
 			};
